@@ -52,26 +52,33 @@ Res(ns, relay, flood, rebuild, dupflood, reject, class) ==
 Quiet(ns, class) == Res(ns, FALSE, FALSE, FALSE, 0, "", class)
 
 \* ---------------------------------------------------------------- removeConnection (1853-1869)
-RemoveConn(ns, peer) ==
-  IF peer = "" THEN ns ELSE
+\* two critical sections: connLock (1855-1857), then knownNodeLock (1858-1867)
+RemConn(ns, peer) == [ns EXCEPT !.conn = Del(@, peer), !.rest = Del(@, peer)]
+RemKnown(ns, peer) ==
   LET k1 == IF Has(ns.known, peer) THEN [ns.known EXCEPT ![peer] = Del(@, ns.id)] ELSE ns.known
       k2 == IF Has(k1, ns.id) THEN [k1 EXCEPT ![ns.id] = Del(@, peer)] ELSE k1
-  IN [ns EXCEPT !.conn = Del(@, peer), !.rest = Del(@, peer), !.known = k2]
+  IN [ns EXCEPT !.known = k2]
+RemoveConn(ns, peer) == IF peer = "" THEN ns ELSE RemKnown(RemConn(ns, peer), peer)
 
 \* ---------------------------------------------------------------- establishment (1986-2071)
 \* first routing message on a fresh session; allow = "any" or a set of ids; nodeCost: per-node override map
-AdmitVerdict(ns, fwd, allow) ==
-  IF fwd = ns.id THEN "self"
-  ELSE IF allow # "any" /\ fwd \notin allow THEN "not_allowed"
+\* allowAny: the backend has no allow-list; otherwise allowSet is the list
+AdmitVerdict(ns, fwd, allowAny, allowSet) ==
+  IF fwd = "" THEN "empty_id"
+  ELSE IF fwd = ns.id THEN "self"
+  ELSE IF ~allowAny /\ fwd \notin allowSet THEN "not_allowed"
   ELSE IF Has(ns.conn, fwd) THEN "already_connected"
   ELSE "ok"
 
-Establish(ns, peer, cost) ==
+\* two critical sections: connLock (2011-2025), then knownNodeLock (2041-2052)
+EstConn(ns, peer, cost) == [ns EXCEPT !.conn = Put(@, peer, cost), !.rest = Put(@, peer, FALSE)]
+EstKnown(ns, peer, cost) ==
   LET k0 == IF Has(ns.known, ns.id) THEN ns.known ELSE Put(ns.known, ns.id, EmptyF)
       k1 == [k0 EXCEPT ![ns.id] = Put(@, peer, cost)]
       k2 == IF Has(k1, peer) THEN k1 ELSE Put(k1, peer, EmptyF)
       k3 == [k2 EXCEPT ![peer] = Put(@, ns.id, cost)]
-  IN [ns EXCEPT !.conn = Put(@, peer, cost), !.rest = Put(@, peer, FALSE), !.known = k3]
+  IN [ns EXCEPT !.known = k3]
+Establish(ns, peer, cost) == EstKnown(EstConn(ns, peer, cost), peer, cost)
 
 \* ---------------------------------------------------------------- handleRoutingUpdate (1454-1567)
 Stale(ns, u) ==
@@ -85,6 +92,21 @@ ApplyConns(ns, u) ==
   [c \in DOMAIN k0 |->
      IF c # ns.id /\ c # u.node /\ ~Has(u.conns, c) THEN Del(k0[c], u.node) ELSE k0[c]]
 
+\* the three critical sections of handleRoutingUpdate, usable one at a time by NodeTrace.tla
+MarkSeen(ns, u) == [ns EXCEPT !.seen = @ \cup {u.id}]                              \* seenUpdatesLock (1481-1489)
+DupAdopt(ns, u) ==                                                                   \* knownNodeLock (1492-1500)
+  IF Has(ns.info, u.node) /\ ns.info[u.node][1] = u.susp
+  THEN [ns EXCEPT !.info[u.node] = <<u.epoch, u.seq>>] ELSE ns
+StaleWhy(ns, u) ==                                                                   \* knownNodeLock (1503-1516)
+  IF ~Has(ns.info, u.node) THEN "fresh"
+  ELSE IF u.epoch < ns.info[u.node][1] THEN "stale_epoch"
+  ELSE IF u.epoch = ns.info[u.node][1] /\ u.seq <= ns.info[u.node][2] THEN "stale_seq"
+  ELSE "newer"
+ChangedBy(ns, u) == ~Has(ns.known, u.node) \/ ns.known[u.node] # u.conns
+Accept(ns, u) ==                                                                     \* knownNodeLock (1524-1552)
+  [ns EXCEPT !.info = Put(@, u.node, <<u.epoch, u.seq>>),
+             !.known = IF ChangedBy(ns, u) THEN ApplyConns(ns, u) ELSE @]
+
 HandleRU(ns, u, via) ==
   IF u.node = "" THEN Quiet(ns, "empty_origin")
   ELSE IF u.node = ns.id THEN
@@ -93,17 +115,12 @@ HandleRU(ns, u, via) ==
          ELSE IF u.epoch > ns.epoch THEN Res(ns, FALSE, FALSE, FALSE, u.epoch, "", "self_newer_epoch")
          ELSE Quiet(ns, "self_older_epoch")
   ELSE IF u.id \in ns.seen THEN Quiet(ns, "seen")
-  ELSE LET n1 == [ns EXCEPT !.seen = @ \cup {u.id}] IN
-       IF u.susp # 0 THEN
-         LET n2 == IF Has(n1.info, u.node) /\ n1.info[u.node][1] = u.susp
-                   THEN [n1 EXCEPT !.info[u.node] = <<u.epoch, u.seq>>] ELSE n1
-         IN Res(n2, TRUE, FALSE, FALSE, 0, "", "dup_notice")
+  ELSE LET n1 == MarkSeen(ns, u) IN
+       IF u.susp # 0 THEN Res(DupAdopt(n1, u), TRUE, FALSE, FALSE, 0, "", "dup_notice")
        ELSE IF Stale(n1, u) THEN Quiet(n1, "stale")
        ELSE LET first   == ~Has(n1.info, u.node)
-                changed == ~Has(n1.known, u.node) \/ n1.known[u.node] # u.conns
-                n2 == [n1 EXCEPT !.info = Put(@, u.node, <<u.epoch, u.seq>>),
-                                 !.known = IF changed THEN ApplyConns(n1, u) ELSE @]
-            IN Res(n2, TRUE, first, changed, 0, "",
+                changed == ChangedBy(n1, u)
+            IN Res(Accept(n1, u), TRUE, first, changed, 0, "",
                    IF changed THEN "accepted_changed" ELSE "accepted_same")
 
 \* ---------------------------------------------------------------- runProtocol, established phase (1926-1960)
